@@ -52,8 +52,8 @@ def _mc_s3(label: str, clients: str, epw: bool, ar: bool, invs: Sequence[str], *
 
 
 def _mc_fl(label: str, lockers: str, invs: Sequence[str], *, mode: str = "flock", unlink: bool = False, blocking: bool = False, die: bool = True,
-           maxnow: int = 3, rounds: int = 2, timeout: int = 1, stale: int = 2, workers: int = 4) -> Any:
-    cfg = tlc.make_cfg(spec="Spec", constants={"Lockers": set(lockers), "ProcOf": tlc.Raw("<- MC_ProcOf"), "Timeout": timeout, "StaleAge": stale,
+           maxnow: int = 3, rounds: int = 2, timeout: int = 1, stale: int = 2, workers: int = 4, live: Sequence[str] = ()) -> Any:
+    cfg = tlc.make_cfg(spec="LiveSpec" if live else "Spec", properties=live, constants={"Lockers": set(lockers), "ProcOf": tlc.Raw("<- MC_ProcOf"), "Timeout": timeout, "StaleAge": stale,
                                                "MaxNow": maxnow, "MaxRounds": rounds, "Mode": mode, "UnlinkOnRelease": unlink,
                                                "BlockingFlock": blocking, "AllowDie": die},
                        invariants=invs, check_deadlock=False)
@@ -262,6 +262,11 @@ def run(ctx: Ctx) -> None:
     f["fl_excl_die"] = pool.submit(_mc_fl, "FLock ab O_EXCL mode, dead holder: DeathReleases (must fail; extension)", "ab", ["DeathReleases"], mode="excl", workers=2)
     f["fl_excl_stale"] = pool.submit(_mc_fl, "FLock abc O_EXCL mode, holder older than the stale age: MutualExclusion (must fail; extension)", "abc",
                                      ["MutualExclusion"], mode="excl", die=False, maxnow=4, stale=2, workers=2)
+    f["fl_live"] = pool.submit(_mc_fl, "FLock ab liveness: every acquire()/release() call returns (fair clock, fair callers, holders may sit, Die)", "ab", [],
+                               live=["AcquireReturns"], maxnow=3 if quick else 4, rounds=2 if quick else 3, timeout=1 if quick else 2)
+    f["fl_live_blocking"] = pool.submit(_mc_fl, "FLock ab blocking flock: AcquireReturns (must fail)", "ab", [], live=["AcquireReturns"], blocking=True, workers=2)
+    if not quick:
+        f["fl_live3"] = pool.submit(_mc_fl, "FLock abc liveness: every acquire()/release() call returns", "abc", [], live=["AcquireReturns"], maxnow=3, rounds=2, workers=6)
     f["fl_reach1"] = pool.submit(_mc_fl, "FLock ab reachability: a blocked acquirer times out (must fail)", "ab", ["NeverTimedOut"], workers=2)
     f["fl_reach2"] = pool.submit(_mc_fl, "FLock ab reachability: acquisition after a death (must fail)", "ab", ["NeverAcquiredAfterDeath"], workers=2)
     if not quick:
@@ -392,6 +397,10 @@ def run(ctx: Ctx) -> None:
     _must_fail(ctx, f["fl_excl_die"].result(), "DeathReleases", "O_EXCL lock file survives its holder")
     _must_fail(ctx, f["fl_excl_stale"].result(), "MutualExclusion", "stale-break race of the O_EXCL fallback")
     _must_fail(ctx, f["fl_reach1"].result(), "NeverTimedOut", "timeout reachable")
+    _must_hold(ctx, f["fl_live"].result(), "FLock-liveness")
+    _must_fail(ctx, f["fl_live_blocking"].result(), "Liveness", "a blocked flock() has no enabled step while the holder sits on the lock")
+    if "fl_live3" in f:
+        _must_hold(ctx, f["fl_live3"].result(), "FLock-liveness")
     _must_fail(ctx, f["fl_reach2"].result(), "NeverAcquiredAfterDeath", "death then acquisition reachable")
     if "fl_excl_ok" in f:
         _must_hold(ctx, f["fl_excl_ok"].result(), "FLock-excl-extension")
